@@ -1036,7 +1036,7 @@ func runGCCase(r *vrep.Report, cs gcCase) {
 		m["population"] = pop
 		var calls []string
 		for _, c := range u.Log.CallsFrom(logFrom) {
-			if c.Client == gc.ID && len(calls) < 120 {
+			if c.Client == gc.ID && len(calls) < 700 {
 				calls = append(calls, fmt.Sprintf("#%d..%d %s region=%d ver=%d %s err=%q regErr=%v :: %.160v => %.200v", c.Seq, c.RetSeq, c.Cmd, c.RegionID, c.RegionVer, c.Action, c.Err, c.RegionErr != nil, c.Req, c.Resp))
 			}
 		}
